@@ -2,6 +2,7 @@ package main
 
 import (
 	"fmt"
+	"go/constant"
 	"go/token"
 	"go/types"
 	"strings"
@@ -1017,4 +1018,344 @@ func c17SepSel(rc *RuleCtx) {
 		}
 	}
 	rc.good(cons, sepStore.Pos(), "the separator is selected by comparing the value that is stored as the OS type")
+}
+
+func init() {
+	register(&Rule{ID: "C05.modebits", Floor: 3, Also: []string{"C16", "C03"},
+		Text: "Chmod changes the permission bits and nothing else: in every setMode of a node (MemFS dirNode / fileNode, OrefaFS node) the value stored into the mode field is (old &^ FileModeMask) | (new & FileModeMask) with the same mask on both sides - the type bits of a node cannot be changed by a mode argument that carries some (in OrefaFS the mode IS the node's kind: a file would become a directory), and bits the mask covers (setuid, setgid, sticky) do not survive a later Chmod",
+		Run:  c05ModeBits})
+}
+
+func c05ModeBits(rc *RuleCtx) {
+	var mask int64 = -1
+	if p := rc.C.pkg("avfs"); p != nil {
+		if k, ok := p.Types.Scope().Lookup("FileModeMask").(*types.Const); ok {
+			if v, exact := constant.Int64Val(k.Val()); exact {
+				mask = v
+			}
+		}
+	}
+	if mask < 0 {
+		rc.anchor("avfs.FileModeMask")
+		return
+	}
+	n := 0
+	for _, pk := range []string{"memfs", "orefafs"} {
+		for _, f := range rc.C.srcFuncs(pk) {
+			if nm(f) != "setMode" || len(f.Params) < 2 {
+				continue
+			}
+			var last *ssa.Store
+			eachInstr(f, func(in ssa.Instruction) {
+				if st, ok := in.(*ssa.Store); ok {
+					if fa, ok := st.Addr.(*ssa.FieldAddr); ok && fieldName(fa.X.Type(), fa.Field) == "mode" {
+						if last == nil || domInstr(last, st) {
+							last = st
+						}
+					}
+				}
+			})
+			if last == nil {
+				continue // a kind whose mode cannot be changed (symbolic links)
+			}
+			n++
+			cons := funcName(f) + " permission bits only"
+			param := ssa.Value(f.Params[1])
+			// expand loads of the mode field through the store that reaches them
+			var expand func(v ssa.Value, d int) ssa.Value
+			isModeLoad := func(v ssa.Value) (*ssa.UnOp, bool) {
+				ld, ok := v.(*ssa.UnOp)
+				if !ok || ld.Op != token.MUL {
+					return nil, false
+				}
+				fa, ok := ld.X.(*ssa.FieldAddr)
+				return ld, ok && fieldName(fa.X.Type(), fa.Field) == "mode"
+			}
+			var clear, set []int64
+			okShape := true
+			var walk func(v ssa.Value, d int)
+			walk = func(v ssa.Value, d int) {
+				if d > 8 {
+					okShape = false
+					return
+				}
+				if ld, isLd := isModeLoad(v); isLd {
+					// the value the field had: a store of this function that reaches the load, or the entry value
+					var reach *ssa.Store
+					eachInstr(f, func(in ssa.Instruction) {
+						if st, ok := in.(*ssa.Store); ok {
+							if fa, ok := st.Addr.(*ssa.FieldAddr); ok && fieldName(fa.X.Type(), fa.Field) == "mode" && domInstr(st, ld) {
+								if reach == nil || domInstr(reach, st) {
+									reach = st
+								}
+							}
+						}
+					})
+					if reach != nil {
+						walk(reach.Val, d+1)
+					}
+					return
+				}
+				b, ok := v.(*ssa.BinOp)
+				if !ok {
+					okShape = false
+					return
+				}
+				switch b.Op {
+				case token.OR:
+					walk(b.X, d+1)
+					walk(b.Y, d+1)
+				case token.AND_NOT:
+					if k, isC := constInt(b.Y); isC {
+						if _, isLd := isModeLoad(b.X); isLd {
+							clear = append(clear, k)
+							walk(b.X, d+1)
+							return
+						}
+					}
+					okShape = false
+				case token.AND:
+					k, isC := constInt(b.Y)
+					if isC && strip(b.X) == param {
+						set = append(set, k)
+						return
+					}
+					okShape = false
+				default:
+					okShape = false
+				}
+			}
+			_ = expand
+			walk(last.Val, 0)
+			switch {
+			case !okShape || len(clear) != 1 || len(set) != 1:
+				rc.bad(cons, last.Pos(), "the mode stored is not (old &^ FileModeMask) | (new & FileModeMask): bits of the argument outside the permission mask reach the node (a mode with type bits changes the kind of the node), or bits of the old mode are kept / lost that should not be")
+			case clear[0] != mask || set[0] != mask:
+				rc.bad(cons, last.Pos(), fmt.Sprintf("the old mode is cleared with mask %#o and the new one taken with mask %#o where both must be FileModeMask (%#o): bits covered by one mask and not the other survive a Chmod or leak into the node", clear[0], set[0], mask))
+			default:
+				rc.good(cons, last.Pos(), "(old &^ FileModeMask) | (new & FileModeMask)")
+			}
+		}
+	}
+	if n == 0 {
+		rc.anchor("setMode of the node types")
+	}
+}
+
+func init() {
+	register(&Rule{ID: "C02.dirbatch", Floor: 8, Also: []string{"C08", "C14"},
+		Text: "directory handles: ReadDir and Readdirnames of MemFile and OrefaFile return the whole listing exactly when n <= 0 (every comparison of the count with 0 is `n <= 0` or `n > 0`), and each of the two resets only the snapshot it hands out batches of (ReadDir stores nil to dirEntries, Readdirnames to dirNames - the sibling's snapshot is the sibling's): a snapshot that is not dropped at io.EOF is replayed by the next pass, which does not see entries created or removed since",
+		Run:  c02DirBatch})
+}
+
+func c02DirBatch(rc *RuleCtx) {
+	own := map[string]string{"ReadDir": "dirEntries", "Readdirnames": "dirNames"}
+	for _, fp := range filePkgs {
+		ms := rc.C.methodsOf(fp.pkg, fp.typ)
+		for _, name := range []string{"ReadDir", "Readdirnames"} {
+			f := ms[name]
+			base := fmt.Sprintf("%s.(*%s).%s", fp.pkg, fp.typ, name)
+			if f == nil || len(f.Params) < 2 {
+				rc.anchor(base)
+				continue
+			}
+			// (a) comparisons of the count with 0
+			cons := base + " whole listing iff n <= 0"
+			bad := ""
+			nCmp := 0
+			eachInstr(f, func(in ssa.Instruction) {
+				b, ok := in.(*ssa.BinOp)
+				if !ok {
+					return
+				}
+				var other ssa.Value
+				op := b.Op
+				if strip(b.X) == ssa.Value(f.Params[1]) {
+					other = b.Y
+				} else if strip(b.Y) == ssa.Value(f.Params[1]) {
+					other = b.X
+					// mirror the operator
+					op = map[token.Token]token.Token{token.LSS: token.GTR, token.GTR: token.LSS, token.LEQ: token.GEQ, token.GEQ: token.LEQ, token.EQL: token.EQL, token.NEQ: token.NEQ}[op]
+				} else {
+					return
+				}
+				if k, isC := constInt(other); !isC || k != 0 {
+					return
+				}
+				nCmp++
+				if op != token.LEQ && op != token.GTR {
+					bad = "the count is compared with 0 by `" + op.String() + "` (" + rc.C.pos(b.Pos()) + "): n == 0 is then treated like a positive batch size, where os.File returns the whole listing for every n <= 0"
+				}
+			})
+			switch {
+			case bad != "":
+				rc.bad(cons, f.Pos(), bad)
+			case nCmp == 0:
+				rc.bad(cons, f.Pos(), "the count is never compared with 0")
+			default:
+				rc.good(cons, f.Pos(), fmt.Sprintf("%d comparison(s), all `n <= 0` / `n > 0`", nCmp))
+			}
+			// (b) only its own snapshot is reset
+			cons = base + " resets its own snapshot"
+			ownReset, foreign := 0, ""
+			eachInstr(f, func(in ssa.Instruction) {
+				st, ok := in.(*ssa.Store)
+				if !ok {
+					return
+				}
+				fa, ok := st.Addr.(*ssa.FieldAddr)
+				if !ok {
+					return
+				}
+				fn := fieldName(fa.X.Type(), fa.Field)
+				if fn != "dirEntries" && fn != "dirNames" {
+					return
+				}
+				if k, isC := strip(st.Val).(*ssa.Const); isC && k.IsNil() {
+					if fn == own[name] {
+						ownReset++
+					} else {
+						foreign = fn
+					}
+				} else if fn != own[name] {
+					foreign = fn
+				}
+			})
+			switch {
+			case foreign != "":
+				rc.bad(cons, f.Pos(), name+" assigns "+foreign+", the snapshot of its sibling, instead of its own "+own[name]+": its own snapshot is not dropped at the end of the directory and the next pass through the handle replays it")
+			case ownReset == 0:
+				rc.bad(cons, f.Pos(), name+" never drops its snapshot ("+own[name]+" = nil): a second pass through the handle replays the listing taken by the first")
+			default:
+				rc.good(cons, f.Pos(), fmt.Sprintf("%d reset(s) of %s, none of the sibling's", ownReset, own[name]))
+			}
+		}
+	}
+}
+
+func init() {
+	register(&Rule{ID: "C09.stateless", Floor: 1,
+		Text: "a read-only view has no state that a call could change: outside its constructor no function of package rofs stores to a field of a RoFS or RoFile (the errors a refusal returns are chosen once, when the view is built; a call that overwrites them changes what every later refusal answers)",
+		Run:  c09Stateless})
+	register(&Rule{ID: "C12.handle", Floor: 1,
+		Text: "an open FailFile consults the failure function its file system has now: the handle refers to its FailFS by pointer (a copy taken when the file was opened would keep the failure function of that moment, and SetFailFunc would never reach open files)",
+		Run:  c12Handle})
+	register(&Rule{ID: "C15.lookup", Floor: 4,
+		Text: "the lookups of MemIdm answer from the maps: the object returned with a nil error by LookupGroup, LookupGroupId, LookupUser and LookupUserId is the value found in the map that AddX / DelX maintain - never an object kept elsewhere (the administrator objects stored at construction), which DelX does not remove",
+		Run:  c15Lookup})
+}
+
+func c09Stateless(rc *RuleCtx) {
+	n := 0
+	cons := "rofs: no store to view state outside the constructor"
+	bad := ""
+	for _, f := range rc.C.srcFuncs("rofs") {
+		isCtor := f.Signature.Recv() == nil
+		eachInstr(f, func(in ssa.Instruction) {
+			st, ok := in.(*ssa.Store)
+			if !ok {
+				return
+			}
+			fa, ok := st.Addr.(*ssa.FieldAddr)
+			if !ok {
+				return
+			}
+			nn := namedOf(fa.X.Type())
+			if nn == nil || (nn.Obj().Name() != "RoFS" && nn.Obj().Name() != "RoFile") {
+				return
+			}
+			n++
+			if isCtor || objKeyOf(fa).fresh {
+				return
+			}
+			bad = funcName(f) + " stores to " + nn.Obj().Name() + "." + fieldName(fa.X.Type(), fa.Field) + " (" + rc.C.pos(st.Pos()) + ")"
+		})
+	}
+	switch {
+	case bad != "":
+		rc.bad(cons, token.NoPos, bad+": a call through the read-only view changes the view, and with it what later calls answer")
+	case n == 0:
+		rc.anchor("rofs: stores to RoFS / RoFile fields in the constructor")
+	default:
+		rc.good(cons, token.NoPos, fmt.Sprintf("%d stores, all in constructors or on objects being built", n))
+	}
+}
+
+func c12Handle(rc *RuleCtx) {
+	ff := rc.C.named("failfs", "FailFile")
+	cons := "failfs.FailFile refers to its file system by pointer"
+	if ff == nil {
+		rc.anchor(cons)
+		return
+	}
+	st, ok := ff.Underlying().(*types.Struct)
+	if !ok {
+		rc.anchor(cons)
+		return
+	}
+	found := false
+	for i := 0; i < st.NumFields(); i++ {
+		fl := st.Field(i)
+		t := fl.Type()
+		if p, isPtr := t.(*types.Pointer); isPtr {
+			if nn := namedOf(p.Elem()); nn != nil && nn.Obj().Name() == "FailFS" {
+				found = true
+			}
+			continue
+		}
+		if nn := namedOf(t); nn != nil && nn.Obj().Name() == "FailFS" {
+			rc.bad(cons, fl.Pos(), "field "+fl.Name()+" holds a FailFS by value: the handle keeps the failure function its file system had when the file was opened")
+			return
+		}
+	}
+	if found {
+		rc.good(cons, ff.Obj().Pos(), "*FailFS")
+	} else {
+		rc.bad(cons, ff.Obj().Pos(), "FailFile has no reference to its FailFS")
+	}
+}
+
+func c15Lookup(rc *RuleCtx) {
+	for _, name := range []string{"LookupGroup", "LookupGroupId", "LookupUser", "LookupUserId"} {
+		f := rc.C.method("memidm", "MemIdm", name)
+		cons := "memidm.(*MemIdm)." + name + " answers from the map"
+		if f == nil {
+			rc.anchor(cons)
+			continue
+		}
+		ei := errResultIndex(f.Signature)
+		bad := ""
+		n := 0
+		for _, r := range returnsOf(f) {
+			nilErr := false
+			for _, o := range originsOf(r.Results[ei]) {
+				if k, isC := o.(*ssa.Const); isC && k.IsNil() {
+					nilErr = true
+				}
+			}
+			if !nilErr {
+				continue
+			}
+			n++
+			for _, o := range originsOf(r.Results[0]) {
+				if e, ok := o.(*ssa.Extract); ok {
+					if _, isLk := e.Tuple.(*ssa.Lookup); isLk && e.Index == 0 {
+						continue
+					}
+				}
+				if _, isLk := o.(*ssa.Lookup); isLk {
+					continue
+				}
+				bad = "a successful return (" + rc.C.pos(r.Pos()) + ") hands out " + prettyVal(o, 0) + ", which is not the value found in the map: after DelUser / DelGroup of that object the lookup by id and the lookup by name disagree"
+			}
+		}
+		switch {
+		case bad != "":
+			rc.bad(cons, f.Pos(), bad)
+		case n == 0:
+			rc.bad(cons, f.Pos(), "no successful return found")
+		default:
+			rc.good(cons, f.Pos(), "every successful return hands out the value of the map lookup")
+		}
+	}
 }
